@@ -64,6 +64,7 @@ type c15Obs struct {
 	Retained []bool   `json:"retained,omitempty"`
 	Puback   []int    `json:"puback,omitempty"`
 	Suback   []int    `json:"suback,omitempty"`
+	SubackShared []int `json:"subackShared,omitempty"` // v5: the same filters subscribed as $share/g/<filter>
 	Undisturbed bool  `json:"undisturbed,omitempty"`
 	Alias    []int    `json:"alias,omitempty"` // per publish: 10+topic routed there | 1 denied | 2 connection closed
 	Err      string   `json:"err,omitempty"`
@@ -264,7 +265,7 @@ func (p *c15Prop) Run(ci interface{}) interface{} {
 			},
 		})
 	}
-	b, err := NewBroker(BrokerOpts{Auth: auths})
+	b, err := NewBroker(BrokerOpts{Auth: auths, SubsShared: true})
 	if err != nil {
 		obs.Err = err.Error()
 		return obs
@@ -386,6 +387,26 @@ func (p *c15Prop) Run(ci interface{}) interface{} {
 		}
 	}
 	t.mu.Unlock()
+	if c.V5 {
+		// the read rules apply to the FILTER of a shared subscription, whatever share name the client picks
+		var sfs []string
+		for j := range c.Verdicts {
+			sfs = append(sfs, fmt.Sprintf("$share/g%d/nr%d/f", j, j))
+		}
+		nack = len(t.Others)
+		_ = t.SendL(mkSubscribe(ver, 98, sfs, ops))
+		if !t.WaitFor(5*time.Second, func() bool { return len(t.Others) > nack || t.closed }) || t.Closed() {
+			obs.Err = "no suback for the shared subscriptions"
+			return obs
+		}
+		t.mu.Lock()
+		if sa, ok := t.Others[len(t.Others)-1].(*mqttp.SubAck); ok {
+			for _, rc := range sa.ReturnCodes() {
+				obs.SubackShared = append(obs.SubackShared, int(rc))
+			}
+		}
+		t.mu.Unlock()
+	}
 	return obs
 }
 
@@ -522,7 +543,7 @@ func (p *c15Prop) Coq(ci interface{}, oi interface{}) string {
 		return fmt.Sprintf("(CAlias %s %s %s)", cList(ps), cInts(o.Alias), cBool(o.Err == ""))
 	}
 	if c.Kind == "chain" {
-		return fmt.Sprintf("(CChain %s %s %d %s %s %s %s %s %s)", bools(c.Verdicts), cBool(c.V5), o.Connack, bools(o.Routed), bools(o.Retained), cInts(o.Puback), cInts(o.Suback), cBool(o.Undisturbed), cBool(o.Err == ""))
+		return fmt.Sprintf("(CChain %s %s %d %s %s %s %s %s %s %s)", bools(c.Verdicts), cBool(c.V5), o.Connack, bools(o.Routed), bools(o.Retained), cInts(o.Puback), cInts(o.Suback), cInts(o.SubackShared), cBool(o.Undisturbed), cBool(o.Err == ""))
 	}
 	enh := func(es []c15Enh) string {
 		it := make([]string, len(es))
